@@ -121,6 +121,11 @@ func (fv *FV) call(st *State, instr ssa.Instruction, c *ssa.CallCommon, res ssa.
 			fv.callFunction(st, target, append([]Val{rv}, args...), 0, at, done)
 			return
 		}
+		if external && key == "io::Reader.Read" && !fv.fc.DirectRead {
+			// C08: a bare Read on the user's source may return short; only functions that account
+			// for the returned count (marked direct-read) may call it
+			fv.addObl(st, "ensures", fmt.Sprintf("direct-read-on-source@%s:%s", st.fr.fn.Name(), at), "false", "a single Read on the user's source is used where the bytes requested are needed in full (short reads are legal)", []string{"C08"})
+		}
 		if !external && !fv.eng.ifaceInScope(c.Method) {
 			// dynamic type unknown and the interface is declared outside the library: the callee may be
 			// any implementor; nothing about the heap survives
@@ -582,6 +587,10 @@ func (fv *FV) havocObject(st *State, v Val, env *Env) {
 			srt := fv.heapsUsed[k]
 			si, isStruct := fv.u.structs[srt]
 			if !isStruct || k != srt || si.GoType == nil {
+				continue
+			}
+			// only a type that implements the interface can be behind it
+			if it, ok := v.Typ.Underlying().(*types.Interface); ok && !it.Empty() && !types.Implements(types.NewPointer(si.GoType), it) {
 				continue
 			}
 			id := fv.u.typeID(types.NewPointer(si.GoType))
